@@ -131,3 +131,36 @@ m("c09-charge-on-stale-mid", ["C09"], S, "            protein_charge = self.char
 m("c09-one-sided", ["C09"], S, "            elif protein_charge < -threshold:\n                max_pH = mid_pH", "            elif protein_charge < -threshold * 10:\n                max_pH = mid_pH")
 m("c09-keep-elif", ["C09"], S, "            if res in ['E', 'D', 'Y', 'C']:\n                total = total+(negative", "            elif res in ('C', 'Y', 'E', 'D'):\n                total = total+(negative", kind="keep")
 m("c09-keep-pow-op", ["C09"], S, "total = total+(1 / (1+np.power(10, (pH - pKa_lookup[res]))))", "total += 1.0 / (1 + 10 ** (pH - pKa_lookup[res]))", kind="keep")
+
+# ------------------------------------------------------------------ C10 (window profiles)
+m("c10-ncpr-guard-removed(F4)", ["C10"], S, "        self.__check_window_to_length(bloblen)\n\n        # detemrine the number of blobs", "        # detemrine the number of blobs")
+m("c10-sigma-guard-removed", ["C10"], S, "        varies over blob-sized regions along the sequence\n        \"\"\"\n\n        self.__check_window_to_length(bloblen)\n\n        nblobs = self.len - bloblen + 1\n\n        # determine the flanking positions over which we don't calculate \n        # sigma", "        varies over blob-sized regions along the sequence\n        \"\"\"\n\n        nblobs = self.len - bloblen + 1\n\n        # determine the flanking positions over which we don't calculate \n        # sigma")
+m("c10-guard-le", ["C10", "C11"], S, "        if len(self.seq) < bloblen:\n            raise SequenceException('Trying to use a window", "        if len(self.seq) <= bloblen:\n            raise SequenceException('Trying to use a window")
+m("c10-even-flank", ["C10"], S, "            flank_start = flank - 1\n            flank_end   = flank \n\n        blobsig = [0] * nblobs", "            flank_start = flank\n            flank_end   = flank - 1\n\n        blobsig = [0] * nblobs")
+m("c10-pads-exchanged", ["C10"], S, "[0]*flank_start + blobfcr + [0]*flank_end", "[0]*flank_end + blobfcr + [0]*flank_start")
+m("c10-arange-0", ["C10"], S, "return np.vstack((np.arange(1, self.len + 1), [0]*flank_start + blobsig + [0]*flank_end))", "return np.vstack((np.arange(0, self.len), [0]*flank_start + blobsig + [0]*flank_end))")
+m("c10-sigma-last-window", ["C10"], S, "        for i in np.arange(0, nblobs):\n            blob = self.chargePattern[i:(i + bloblen)]\n            bpos = len(np.where(blob > 0)[0])\n            bneg = len(np.where(blob < 0)[0])\n\n            bncpr", "        for i in np.arange(0, nblobs - 1):\n            blob = self.chargePattern[i:(i + bloblen)]\n            bpos = len(np.where(blob > 0)[0])\n            bneg = len(np.where(blob < 0)[0])\n\n            bncpr")
+m("c10-density-div-wm1", ["C10"], S, "blob_density[i] = sum(blob)/float(bloblen)", "blob_density[i] = sum(blob)/float(bloblen - 1)")
+m("c10-hydro-kd-not-uversky", ["C10"], S, "        KDU = aminoacids.get_KD_uversky()\n", "        KDU = aminoacids.get_KD_shifted()\n")
+m("c10-fcr-minus", ["C10"], S, "blobfcr[i] = (bpos + bneg) / (bloblen + 0.0)", "blobfcr[i] = (bpos - bneg) / (bloblen + 0.0)")
+m("c10-window-shifted", ["C10"], S, "            blob = hydrochain[i:(i + bloblen)]\n            blobhydro[i] = sum(blob) / float(bloblen)", "            blob = hydrochain[i + 1:(i + bloblen + 1)]\n            blobhydro[i] = sum(blob) / float(bloblen)")
+m("c10-groups-sorted", ["C10"], S, "        for group in grps[1:]:\n            tmp = self.linearDenistyOfAAs(bloblen, group)", "        for group in sorted(grps[1:]):\n            tmp = self.linearDenistyOfAAs(bloblen, group)")
+m("c10-default-group-polar", ["C10"], S, "grps.append(['Q','N','S','T','G','H','C'])", "grps.append(['Q','N','S','T','G','H'])")
+m("c10-api-fcr-for-ncpr", ["C10"], P, "        return(self.SeqObj.linearDistOfNCPR(blobLen))", "        return(self.SeqObj.linearDistOfFCR(blobLen))")
+m("c10-density-else-one", ["C10"], S, "                target_seq.append(0.0)", "                target_seq.append(0.5)")
+m("c10-keep-floordiv", ["C10"], S, "        flank = int(bloblen/2)\n\n        # if bloblen is odd", "        flank = bloblen // 2\n\n        # if bloblen is odd", kind="keep")
+m("c10-keep-parity-test", ["C10"], S, "        # if bloblen is odd\n        if 2*flank+nblobs == self.len:", "        # if bloblen is odd\n        if bloblen % 2 == 1:", kind="keep", undecided_ok=True)
+
+# ------------------------------------------------------------------ C12 (reduced alphabets)
+m("c12-move-C-size6", ["C12"], C, "                elif x in ('P', 'H', 'C'):\n                    aa.append('P')", "                elif x in ('P', 'H'):\n                    aa.append('P')")
+m("c12-move-T-size8", ["C12"], C, "                elif x in ('S', 'T'):\n                    aa.append('S')\n                elif x in ('F', 'Y', 'W'):\n                    aa.append('F')\n                elif x in ('E', 'D', 'N', 'Q'):\n                    aa.append('E')\n                elif x in ('H'):", "                elif x in ('S'):\n                    aa.append('S')\n                elif x in ('F', 'Y', 'W'):\n                    aa.append('F')\n                elif x in ('E', 'D', 'N', 'Q'):\n                    aa.append('E')\n                elif x in ('H', 'T'):")
+m("c12-rep-nonmember", ["C12"], C, "                if x in ('L', 'M'):\n                    aa.append('L')", "                if x in ('L', 'M'):\n                    aa.append('I')")
+m("c12-alphabet-out-of-step", ["C12"], C, "        six    = ['L', 'A', 'P', 'F', 'E', 'K']", "        six    = ['L', 'A', 'P', 'F', 'E', 'R']")
+m("c12-double-append", ["C12"], C, "                elif x in ('V', 'I'):\n                    aa.append('V')", "                elif x in ('V', 'I'):\n                    aa.append('V')\n                    aa.append('V')")
+m("c12-size-7-accepted", ["C12"], C, "        if alphabetSize not in [2, 3, 4, 5, 6, 8, 10, 11, 12, 15, 18, 20]:", "        if alphabetSize not in [2, 3, 4, 5, 6, 7, 8, 10, 11, 12, 15, 18, 20]:")
+m("c12-user-no-value-check", ["C12"], C, "                if converted not in TWENTY_AAs:", "                if converted not in TWENTY_AAs and converted != 'X':")
+m("c12-user-validate-19", ["C12"], C, "            for x in TWENTY_AAs:\n                try:", "            for x in TWENTY_AAs[:-1]:\n                try:")
+m("c12-swap-ED-size12", ["C12"], C, "                elif x in ('E', 'Q'):\n                    aa.append('E')\n                elif x in ('D', 'N'):\n                    aa.append('D')", "                elif x in ('E', 'D'):\n                    aa.append('E')\n                elif x in ('Q', 'N'):\n                    aa.append('D')")
+m("c12-api-drops-user", ["C12"], S, "        return self.ComplexityObject.reduce_alphabet(\n            self.seq, alphabetSize, userAlphabet)", "        return self.ComplexityObject.reduce_alphabet(\n            self.seq, alphabetSize)")
+m("c12-keep-set-literal", ["C12"], C, "                if x in ('L', 'M'):\n                    aa.append('L')", "                if x in {'M', 'L'}:\n                    aa.append('L')", kind="keep")
+m("c12-keep-H-string", ["C12"], C, "                elif x in ('H'):", "                elif x == 'H':", kind="keep")
